@@ -194,7 +194,7 @@ class Interp:
                     s_ = b["succs"][0] if v else b["succs"][1]
                     succs = [s_] if isinstance(s_, int) else []
             elif t and t.get("kind") == "SwitchStmt":
-                v = self.ev(t.get("cond"), fr) if t.get("cond") else None
+                v = self.ev(t.get("switch_cond"), fr) if t.get("switch_cond") else None
                 if isinstance(v, int):
                     hit = [s_ for s_ in succs if blocks[s_].get("case", {}).get("k") == "int" and blocks[s_]["case"]["v"] == v]
                     dflt = [s_ for s_ in succs if blocks[s_].get("default")]
